@@ -15,6 +15,16 @@ check("C06", "E2 enum", "exploration",
       "Every ordered pair of a boundary Int set (both sides of 2^31..2^128) x every Int operator x 3 Go API families x 4 source forms through the real checker+VM is evaluated and compared with math/big (truncated division), plus division identity, result normalisation/hash/equality against the canonical value and operand immutability. Exhaustive inside the stated alphabet; says nothing about integers outside it.",
       "math/big; the boundary set is representative of the small/big representation switch; bodies compiled one at a time")
 
+check("C26", "E1 sched", "model_checking",
+      "stateless schedule exploration of the real symbol table under a controlled scheduler (all interleavings, happens-before state caching; statement-level points with preemption bound) + brute-force linearizability",
+      "The real value.SymbolTableStruct is driven by 2-3 scheduled threads over all operation-sequence assignments of the alphabet; every interleaving of its RWMutex operations is explored, then every schedule with <=2 (thorough 3) preemptions with a scheduling point before every statement of symbol_table.go; each complete call/return history is checked for linearizability against a sequential map and the final table for bijectivity.",
+      "Go memory-model effects below statement granularity are not modelled (a free-running -race pass would be needed for data races proper); alphabet: 2 names, ids 0-1")
+
+check("C16", "E1 sched", "model_checking",
+      "stateless schedule exploration (preemption-bounded DFS) of the real promise / thread-pool / AWAIT code under a controlled scheduler injected by build overlay",
+      "Six async Elk scenarios x pool sizes 1-3 x queue capacities 1-8 are executed on the real VM with every Mutex/WaitGroup/channel/goroutine operation of vm/promise.go, vm/thread_pool.go and vm/thread.go owned by the scheduler; all schedules with <=2 (thorough 3) preemptions at synchronisation points, and <=1 (thorough 2) with an additional point before every statement of promise.go/thread_pool.go, are enumerated; deadlock (lost wake-up or capacity), host panic and any deviation of the stdout multiset from the sequential expectation are violations.",
+      "interpreter code between scheduling points runs atomically; timers not modelled; per-case wall-clock budget can end a configuration early (reported as exhaustive:false with the configurations concerned)")
+
 NOT_YET = "check not built yet in this round (planned, see DESIGN.md section 5)"
 NA = {}
 
